@@ -182,6 +182,14 @@ def make_objective(name: str, box: np.ndarray, maximize: bool, shift: float = 0.
         def f(x):
             return 0.0 + shift
 
+    elif name == "intpen":
+        # a death penalty written as a Python int on a slab of the box, floats elsewhere (non-uniform return type)
+        def f(x):
+            u = (np.asarray(x, dtype=float) - lo) / rng
+            if 0.42 <= u[0] <= 0.62:
+                return 3 + int(shift)
+            return float(np.sum((u - c) ** 2)) + shift
+
     else:
         raise KeyError(name)
 
